@@ -22,3 +22,7 @@ package internal
 //@   property C12
 //@   modifies hst, ipBytes
 //@   ensures key-covers-host-type-class-and-answer-flag: k == ckey(host, qt, cl, isAns)
+
+// Metrics are observers.
+//@ interface Metrics method *
+//@   modifies nothing
